@@ -217,14 +217,14 @@ func (r *Router) ListActiveServices() ServiceDescriptionMap {
 
 	r.withReadLock(func() error {
 		for name, service := range r.services.All() {
-			if service.active != nil {
+			if active, _, _ := service.loadBalancers(); active != nil {
 				host := strings.Join(service.options.Hosts, ",")
 				if host == "" {
 					host = "*"
 				}
 
 				path := strings.Join(service.options.PathPrefixes, ",")
-				target := strings.Join(service.active.Targets().Names(), ",")
+				target := strings.Join(active.Targets().Names(), ",")
 
 				result[name] = ServiceDescription{
 					Host:   host,
